@@ -238,7 +238,7 @@ class Result:
         self.assumptions = []
 
     def violation(self, cls, detail, artefact=None):
-        d = os.path.join(VERIF, "replays", self.prop)
+        d = os.path.join(os.environ.get("VERIF_REPLAY_DIR", os.path.join(VERIF, "replays")), self.prop)
         os.makedirs(d, exist_ok=True)
         path = os.path.join(d, "%s-%s-%d-%d.json" % (self.prop, re.sub(r"[^A-Za-z0-9_.-]", "_", cls)[:40], int(time.time()), len(self.violations)))
         with open(path, "w") as f:
@@ -267,8 +267,9 @@ class Result:
         }
         if self.known:
             ev["known_findings"] = {k: v[0] for k, v in self.known.items()}
-        os.makedirs(os.path.join(VERIF, "evidence"), exist_ok=True)
-        with open(os.path.join(VERIF, "evidence", self.prop + ".json"), "w") as f:
+        evdir = os.environ.get("VERIF_EVIDENCE_DIR", os.path.join(VERIF, "evidence"))
+        os.makedirs(evdir, exist_ok=True)
+        with open(os.path.join(evdir, self.prop + ".json"), "w") as f:
             json.dump(ev, f, indent=1, default=str)
         for k, (n, f) in self.known.items():
             print("KNOWN-FINDING: property=%s %s: %s (%d occurrences this run)" % (self.prop, k, f["what"], n), flush=True)
